@@ -82,6 +82,20 @@ def protosFromDef (fuel : Nat) (ns : Ns) (pd : ProtoDefs) (parent : PDict) (name
 def protos (fuel : Nat) (ns : Ns) (pd : ProtoDefs) (parent : PDict) : List PDict :=
   parent.flatMap (fun kv => protosFromDef fuel ns pd parent kv.1)
 
+/-- `protos_from_def` with the loops as the code writes them -/
+def protosFromDefLoop (fuel : Nat) (ns : Ns) (pd : ProtoDefs) (parent : PDict) (name : Name) : List PDict :=
+  match plookup pd name with
+  | none => []
+  | some spec =>
+    match spec.children with
+    | none => []
+    | some cs => cs.map (mergeLoop (flattenedLoop fuel ns spec.flatten parent))
+
+/-- `protos` with the loops as the code writes them (what the driver runs; `protosLoop_eq`: tag by tag the dicts of
+`protos`) -/
+def protosLoop (fuel : Nat) (ns : Ns) (pd : ProtoDefs) (parent : PDict) : List PDict :=
+  parent.flatMap (fun kv => protosFromDefLoop fuel ns pd parent kv.1)
+
 /-! ### `core_type_defs` -/
 
 /-- the sixteen names `core_type_defs` looks up, in the order of the fields of `CoreTypeDefs`
